@@ -42,8 +42,50 @@ shape("code_directory_fns", "src/codemodder/code_directory.py", ["C05", "C13"],
 shape("context_paths", "src/codemodder/context.py", ["C05"],
       "context_paths_shape", "as_written", "AsWritten",
       ["CodemodExecutionContext.included_paths", "CodemodExecutionContext.files_to_analyze",
-       "CodemodExecutionContext.find_and_fix_paths", "CodemodExecutionContext.filter_paths"],
-      doc="included_paths / files_to_analyze / find_and_fix_paths (`or None` sentinels) / filter_paths (user excludes as they are)")
+       "CodemodExecutionContext.filter_paths"],
+      doc="included_paths / files_to_analyze / filter_paths (user excludes as they are)")
+
+shape("ff_exclude_sentinel", "src/codemodder/context.py", ["C05"],
+      "ff_exclude_sentinel", "exclude_sentinel_form", "FileLevelOrNone",
+      ["CodemodExecutionContext.find_and_fix_paths"],
+      doc="find_and_fix_paths: `self.path_exclude or None` (a list of `path:line` patterns only switches the default excludes off) "
+          "/ the file-level patterns `or None`")
+
+shape("manifest_locations", "src/codemodder/project_analysis/file_parsers/base_parser.py", ["C05"],
+      "manifest_locations", "manifest_loc_form", "SkipSymlinks",
+      ["BaseParser.find_file_locations"],
+      doc="BaseParser.find_file_locations: every rglob hit / symlinks skipped")
+
+
+def _manifest_exclusion_parts(tree):
+    """context.py: the helper `_writable_package_stores` (absent on the pinned tree) and the expression whose value
+    `process_dependencies` binds to store_list (the stores it may write)."""
+    parts = []
+    helper = find_def(tree, "CodemodExecutionContext._writable_package_stores")
+    parts.append("helper=" + (norm_dump(helper) if helper is not None else "<absent>"))
+    pd = find_def(tree, "CodemodExecutionContext.process_dependencies")
+    if pd is None:
+        raise Unrecognised("CodemodExecutionContext.process_dependencies not found")
+    bound = [n for n in ast.walk(pd) if isinstance(n, ast.NamedExpr) and isinstance(n.target, ast.Name) and n.target.id == "store_list"]
+    bound += [n for n in ast.walk(pd) if isinstance(n, ast.Assign) and len(n.targets) == 1 and isinstance(n.targets[0], ast.Name)
+              and n.targets[0].id == "store_list"]
+    if len(bound) != 1:
+        raise Unrecognised(f"process_dependencies binds store_list {len(bound)} times")
+    parts.append("store_list=" + norm_dump(bound[0].value))
+    return "\n".join(parts)
+
+
+def _manifest_exclusion(tree, repo):
+    got = _manifest_exclusion_parts(tree)
+    for f in sorted((SHAPES / "manifest_exclusion").glob("*.py")):
+        if _manifest_exclusion_parts(ast.parse(f.read_text())) == got:
+            return f.stem.split("__")[0]
+    raise Unrecognised("the stores process_dependencies may write (store_list / _writable_package_stores) match no known variant")
+
+
+custom("manifest_exclusion", "src/codemodder/context.py", ["C05"],
+       "manifest_exclusion", "manifest_excl_form", "FileLevelExcludes", _manifest_exclusion,
+       doc="process_dependencies: every parsed package store may be written / stores matched by a file-level exclude are skipped")
 
 shape("get_files_to_analyze", "src/codemodder/codemods/base_codemod.py", ["C05"],
       "get_files_to_analyze_shape", "as_written", "AsWritten",
